@@ -1816,7 +1816,7 @@ Proof.
   - rewrite St, IH. reflexivity.
 Qed.
 
-Definition cinit (progs : list (list creq)) : cstate := mkC (mkM [] 0) (map (mkT false) progs).
+Definition cinit := cinit_run.
 
 Lemma Rc_init : Rc (mkM [] 0) init_sworld.
 Proof.
